@@ -148,12 +148,15 @@ def check_case(ctx, case):
             ctx.violation({**key, "kind": "J=0 strictly inside"}, case,
                           {"i": i, "J": J[i], "pol": pol_g, "local": Pl[i], "depth": G.depth(s, Pl[i:i + 1])[0]})
         elif sd[i] == -1 and not isz:
-            ctx.violation({**key, "kind": "J=pol strictly outside"}, case,
+            dep = float(G.depth(s, Pl[i:i + 1])[0])
+            ctx.violation({**key, "kind": "J=pol strictly outside", "abs_depth": "<=1.5e-7" if abs(dep) <= 1.5e-7 else ">1.5e-7"}, case,
                           {"i": i, "J": J[i], "local": Pl[i], "depth": G.depth(s, Pl[i:i + 1])[0]})
     # in_out forced, only when truthful for the whole batch
     if s["cls"] in ("Tetrahedron", "TriangularMesh") and not case["via_sensor"]:
         for mode, val in (("inside", 1), ("outside", -1)):
-            if np.all(sd == val):
+            # certified truthful only clear of the library's absolute 1e-7 touch band (known finding
+            # trimesh-inside-band-1e-7, monitored by the J checks above)
+            if np.all(sd == val) and np.all(np.abs(G.depth(s, Pl)) > 2e-7):
                 with quiet():
                     Bf = np.asarray(magpy.getB(src, P, squeeze=False, in_out=mode))[0, 0, 0].reshape(-1, 3)
                 ctx.count("inout_forced")
